@@ -12,86 +12,57 @@
     the upstream.  The decision itself (matched rule, pipeline outcome) is a
     function of the view, so equal views give equal decisions.
 
-    [fixed = false] is the tree as pinned (finding C09-F1), [fixed = true] the
-    repaired loader of fixes/C09-F1.diff.  [parse_uri] (url.Parse) is arbitrary. *)
+    [fixed = true] is the tree as it is now: the loader of trustedproxy.New after
+    the repair of finding C09-F1 (fix: commit e501d3a, fixes/C09-F1.diff);
+    [fixed = false] is the loader as pinned, kept to document the finding
+    ([..._pinned], [..._pinned_refuted]).  The main theorems are about the
+    repaired loader and carry no guard.  [parse_uri] (url.Parse) is arbitrary. *)
 From HV Require Import Base.Prelude C09.Model C09.Proofs.
 
-(** the trust decision of the (repaired) middleware is exactly membership of the
-    peer address in the configured list *)
+(** the trust decision of the middleware is exactly membership of the peer address in the
+    configured list (single address = itself, IPv4 == IPv4-mapped IPv6; CIDR by family and mask;
+    entries and peers that do not parse cover / are covered by nothing) *)
 Theorem C09_trust_is_membership : forall es peer,
   Forall wf_entry es -> wf_ip peer ->
   (trusted_peer true es peer = true <-> listed es peer).
 Proof. exact trust_is_membership. Qed.
 Print Assumptions C09_trust_is_membership.
 
-(** the same for the pinned middleware, outside the inputs of C09-F1 *)
-Theorem C09_trust_is_membership_pinned : forall es peer,
-  Forall wf_entry es -> wf_ip peer -> guard_F1 es peer = false ->
-  (trusted_peer false es peer = true <-> listed es peer).
-Proof. exact trust_is_membership_pinned. Qed.
-Print Assumptions C09_trust_is_membership_pinned.
-
-(** C09-F1: an entry that does not parse makes every peer that does not parse trusted *)
-Theorem C09_F1_refuted :
-  exists es peer, Forall wf_entry es /\ wf_ip peer /\ guard_F1 es peer = true /\
-                  trusted_peer false es peer = true /\ ~ listed es peer.
-Proof. exact F1_refuted. Qed.
-Print Assumptions C09_F1_refuted.
-
 (** 2-safety: for a peer that is not listed, two requests that differ at most in
     the seven forwarded headers (any values, any number of repetitions) produce
     the same view, hence the same decision, and the same upstream request *)
-Theorem C09_untrusted_noninterference : forall parse_uri fixed es peer c h h',
+Theorem C09_untrusted_noninterference : forall parse_uri es peer c h h',
   Forall wf_entry es -> wf_ip peer ->
-  ~ listed es peer -> (fixed = false -> guard_F1 es peer = false) ->
+  ~ listed es peer ->
   same_except_forwarded h h' ->
-  serve parse_uri fixed es peer c h = serve parse_uri fixed es peer c h' /\
+  serve parse_uri true es peer c h = serve parse_uri true es peer c h' /\
   forall (D : Type) (decide : view -> D),
-    decide (s_view (serve parse_uri fixed es peer c h)) = decide (s_view (serve parse_uri fixed es peer c h')).
-Proof.
-  intros parse_uri fixed es peer c h h' Hes Hp Hl Hg Hs.
-  assert (Ht : trusted_peer fixed es peer = false).
-  { apply not_true_is_false. intro T. apply Hl.
-    destruct fixed.
-    - apply trust_is_membership; assumption.
-    - apply trust_is_membership_pinned; auto. }
-  assert (E := untrusted_noninterference parse_uri fixed es peer c h h' Ht Hs).
-  split; [exact E|]. intros D decide. rewrite E. reflexivity.
-Qed.
+    decide (s_view (serve parse_uri true es peer c h)) = decide (s_view (serve parse_uri true es peer c h')).
+Proof. exact noninterference_fixed. Qed.
 Print Assumptions C09_untrusted_noninterference.
 
 (** for a peer that is not listed: method, scheme, host, path, query and the
     client address list come only from the connection and the request line, the
     pipeline sees none of the seven headers, and the upstream receives one freshly
     made Forwarded header and none of the received ones *)
-Theorem C09_untrusted_not_passed_on : forall parse_uri fixed es peer c h,
+Theorem C09_untrusted_not_passed_on : forall parse_uri es peer c h,
   Forall wf_entry es -> wf_ip peer ->
-  ~ listed es peer -> (fixed = false -> guard_F1 es peer = false) ->
-  serve parse_uri fixed es peer c h =
+  ~ listed es peer ->
+  serve parse_uri true es peer c h =
     {| s_view := {| v_method := c_method c; v_scheme := if c_tls c then "https" else "http";
                     v_host := c_host c; v_rawpath := c_escpath c; v_query := c_rawquery c;
                     v_ips := [c_peer c]; v_hdrs := not_forwarded h |};
        s_up_fwd := spec_upstream_untrusted c;
        s_up_method := c_method c;
        s_up_uri := (c_escpath c ++ (if nonempty (c_rawquery c) then "?" ++ c_rawquery c else ""))%string |} /\
-  forall k, In k untrusted_header -> has k (v_hdrs (s_view (serve parse_uri fixed es peer c h))) = false.
-Proof.
-  intros parse_uri fixed es peer c h Hes Hp Hl Hg.
-  assert (Ht : trusted_peer fixed es peer = false).
-  { apply not_true_is_false. intro T. apply Hl.
-    destruct fixed.
-    - apply trust_is_membership; assumption.
-    - apply trust_is_membership_pinned; auto. }
-  rewrite (untrusted_not_passed_on parse_uri fixed es peer c h Ht). split; [reflexivity|].
-  intros k Hk. cbn [s_view spec_view_untrusted v_hdrs]. apply has_not_forwarded.
-  unfold is_forwarded_name. apply existsb_exists. exists k. split; [exact Hk | apply String.eqb_refl].
-Qed.
+  forall k, In k untrusted_header -> has k (v_hdrs (s_view (serve parse_uri true es peer c h))) = false.
+Proof. exact not_passed_on_fixed. Qed.
 Print Assumptions C09_untrusted_not_passed_on.
 
 (** for a listed peer every present, non-empty header overrides exactly its
     component (Proto -> scheme, Host -> host, Uri -> path and query, Method ->
     method, Forwarded / X-Forwarded-For -> client list) and everything else
-    falls back to the actual request *)
+    falls back to the actual request (both loaders) *)
 Theorem C09_trusted_overrides_exactly : forall parse_uri fixed es peer c h,
   Forall wf_entry es -> wf_ip peer -> listed es peer ->
   s_view (serve parse_uri fixed es peer c h) =
@@ -103,32 +74,66 @@ Theorem C09_trusted_overrides_exactly : forall parse_uri fixed es peer c h,
      v_query := override (option_map snd uri) (c_rawquery c);
      v_ips := spec_forwarded_clients h ++ [c_peer c];
      v_hdrs := h |}.
-Proof.
-  intros parse_uri fixed es peer c h Hes Hp Hl.
-  assert (Ht : trusted_peer fixed es peer = true).
-  { assert (T : trusted_peer true es peer = true) by (apply trust_is_membership; assumption).
-    destruct fixed; [exact T|].
-    destruct (guard_F1 es peer) eqn:G.
-    - (* guard fires: the peer does not parse, so it cannot be listed *)
-      exfalso. unfold guard_F1 in G. apply andb_true_iff in G as [G _].
-      destruct peer; [|discriminate]. destruct Hl as (e & _ & Hc).
-      unfold spec_covers in Hc. simpl in Hc. destruct e; discriminate.
-    - rewrite pinned_eq_fixed by exact G. exact T. }
-  apply trusted_overrides_exactly. exact Ht.
-Qed.
+Proof. exact trusted_overrides_gen. Qed.
 Print Assumptions C09_trusted_overrides_exactly.
+
+(** --- the pinned loader (before fix: e501d3a), documented --- *)
+
+(** outside the inputs of C09-F1 the pinned middleware decided membership too *)
+Theorem C09_trust_is_membership_pinned : forall es peer,
+  Forall wf_entry es -> wf_ip peer -> guard_F1 es peer = false ->
+  (trusted_peer false es peer = true <-> listed es peer).
+Proof. exact trust_is_membership_pinned. Qed.
+Print Assumptions C09_trust_is_membership_pinned.
+
+(** ... and was non-interfering there *)
+Theorem C09_untrusted_noninterference_pinned : forall parse_uri fixed es peer c h h',
+  Forall wf_entry es -> wf_ip peer ->
+  ~ listed es peer -> (fixed = false -> guard_F1 es peer = false) ->
+  same_except_forwarded h h' ->
+  serve parse_uri fixed es peer c h = serve parse_uri fixed es peer c h' /\
+  forall (D : Type) (decide : view -> D),
+    decide (s_view (serve parse_uri fixed es peer c h)) = decide (s_view (serve parse_uri fixed es peer c h')).
+Proof. exact noninterference_gen. Qed.
+Print Assumptions C09_untrusted_noninterference_pinned.
+
+(** C09-F1 (repaired): with the pinned loader an entry that does not parse made every peer that
+    does not parse trusted ... *)
+Theorem C09_F1_pinned_refuted :
+  exists es peer, Forall wf_entry es /\ wf_ip peer /\ guard_F1 es peer = true /\
+                  trusted_peer false es peer = true /\ ~ listed es peer.
+Proof. exact F1_refuted. Qed.
+Print Assumptions C09_F1_pinned_refuted.
+
+(** ... so that its forwarded headers changed the view; the repaired loader ignores them on the same input *)
+Theorem C09_F1_pinned_noninterference_refuted :
+  exists es peer c h h',
+    Forall wf_entry es /\ wf_ip peer /\ ~ listed es peer /\ guard_F1 es peer = true /\
+    same_except_forwarded h h' /\
+    s_view (serve (fun _ => None) false es peer c h) <> s_view (serve (fun _ => None) false es peer c h') /\
+    s_view (serve (fun _ => None) true es peer c h) = s_view (serve (fun _ => None) true es peer c h').
+Proof. exact F1_pinned_noninterference_refuted. Qed.
+Print Assumptions C09_F1_pinned_noninterference_refuted.
 
 (** the hypotheses are satisfiable by non-trivial inputs *)
 Example C09_nonvacuous_untrusted :
   let es := [ECidr [10;0;0;0]%N [255;0;0;0]%N; EIp []] in
   let peer := [0;0;0;0;0;0;0;0;0;0;255;255;8;8;4;4]%N in
-  Forall wf_entry es /\ wf_ip peer /\ ~ listed es peer /\ guard_F1 es peer = false /\
+  Forall wf_entry es /\ wf_ip peer /\ ~ listed es peer /\
   same_except_forwarded [(XFM, "POST"); ("X-Custom", "1"); (XFU, "/pst/a")]%string [("X-Custom", "1"); (FWD, "for=1.1.1.1")]%string.
 Proof.
   split; [repeat constructor; simpl; auto|]. split; [right; right; reflexivity|].
   split; [intro L; apply listedb_listed in L; vm_compute in L; discriminate|].
-  split; reflexivity.
+  reflexivity.
 Qed.
+
+(** in particular by the inputs of the former finding *)
+Example C09_nonvacuous_former_F1_input :
+  let es := [EIp []; ECidr [10;0;0;0]%N [255;0;0;0]%N] in
+  let peer : ip := [] in
+  Forall wf_entry es /\ wf_ip peer /\ ~ listed es peer /\ guard_F1 es peer = true /\
+  trusted_peer true es peer = false /\ trusted_peer false es peer = true.
+Proof. exact nonvacuous_former_F1_input. Qed.
 
 Example C09_nonvacuous_trusted :
   let es := [ECidr [10;0;0;0]%N [255;0;0;0]%N] in
